@@ -463,7 +463,68 @@ def c20(ctx):
                                "hook selection per principal (InvokeHooksForStage) is not exercised yet"])
 
 
+# ---------------------------------------------------------------------------
+# C12  policy ref advances only to verified descendants that verification accepts
+
+def c12(ctx):
+    q = ctx.quick()
+    known, asbuilt = devsets("C12")
+    asbuilt = (asbuilt & {"ApplyPublishesUnchainedRoot"}) | known
+    consts = {"MaxLen": 6 if q else 7, "Dev": set(), "EmitMod": 7, "EmitRes": ctx.seed % 7}
+    model_check(ctx, "MC_PolicyApply", dict(constants=consts, invariants=["Published", "ApplySafe", "Guard"], view="View"), workers=8, timeout=3600)
+    r = run_tlc(ctx, "MC_PolicyApply", dict(constants=dict(consts, Dev=asbuilt), view="View", constraints=["Emit"]), workers=8, timeout=3600)
+    if r.error or r.violated:
+        raise Infra("scenario emission failed: %s" % (r.error or r.violated))
+    scns, seen = [], set()
+    for x in r.records:
+        k = json.dumps(x, sort_keys=True)
+        if x.get("t") == "SCN" and k not in seen:
+            seen.add(k)
+            scns.append(x)
+    # the rotation histories no test performs are always included
+    scns += [{"t": "SCN", "ops": [{"op": "Init", "s": "a"}, {"op": "Apply"}, {"op": "AddRootKey", "s": "a", "k": "b"},
+                                  {"op": "RemoveRootKey", "s": "b", "k": "a"}, {"op": "Apply"}]},
+             {"t": "SCN", "ops": [{"op": "Init", "s": "a"}, {"op": "Apply"}, {"op": "AddRootKey", "s": "a", "k": "b"},
+                                  {"op": "AddRootKey", "s": "b", "k": "a"}, {"op": "Apply"}]},
+             {"t": "SCN", "ops": [{"op": "Init", "s": "a"}, {"op": "Apply"}, {"op": "AddRootKey", "s": "a", "k": "b"},
+                                  {"op": "SignRoot", "s": "b"}, {"op": "Apply"}, {"op": "TamperStaging"}, {"op": "Apply"}]}]
+    scn_path = os.path.join(ctx.scratch, "scn.ndjson")
+    write_ndjson(scn_path, scns)
+    trace = os.path.join(ctx.scratch, "trace.ndjson")
+    run_vh(ctx, ["policyapply", "-scn", scn_path, "-out", trace, "-seed", ctx.seed, "-n", 80 if q else 600], timeout=7200)
+    # keep the fixed witnesses in the sample: they were appended last, re-run them explicitly
+    wit = os.path.join(ctx.scratch, "wit.ndjson")
+    write_ndjson(wit, scns[-3:])
+    trace2 = os.path.join(ctx.scratch, "trace2.ndjson")
+    run_vh(ctx, ["policyapply", "-scn", wit, "-out", trace2, "-seed", ctx.seed], timeout=3600)
+    allt = os.path.join(ctx.scratch, "all.ndjson")
+    n = 0
+    with open(allt, "w") as f:
+        for p in (trace, trace2):
+            for rr in read_ndjson(p):
+                n += 1
+                rr["id"] = n
+                f.write(json.dumps(rr, separators=(",", ":")) + "\n")
+    cls = validate_trace(ctx, "Trace_PolicyApply", allt, {"Known": known, "AsBuilt": asbuilt}, shards=4)
+    lines = {x["id"]: x for x in read_ndjson(allt)}
+    tally = Tally(ctx)
+    for rec in cls:
+        if rec["err"]:
+            raise Infra("harness could not run scenario %d: %s" % (rec["id"], rec["err"]))
+        x = rec["r"]
+        item = None
+        if x["cls"] != "conform":
+            ln = lines[rec["id"]]
+            item = {"why": x.get("why"), "ops": ln["scn"]["ops"], "steps": ln["steps"]}
+        tally.add(x["cls"], item, dev=x.get("dev"), nontrivial_key=rec["id"] if rec["n"] > 2 else None)
+    return finish(ctx, tally, samples=[{"ops": scns[0]["ops"]}, {"ops": scns[-1]["ops"]}], traces=len(cls),
+                  assumptions=["operations run through experimental/gittuf.Repository on real on-disk Git repositories with ssh "
+                               "signers read from key files (ssh-keygen); root edits only (rule-file keys, rules and global rules "
+                               "edits are not in the operation alphabet yet)", "a seeded sample of the emitted histories is replayed"])
+
+
 CHECKS = {
+    "C12": c12,
     "C20": c20,
     "C13": c13,
     "C01": c01,
